@@ -104,7 +104,7 @@ async fn fsm_case(delay_open: bool, hold: u16, ap: &str, steps: &str) -> String 
                     let b = unhex(parts[1]);
                     peer.write_all(&b).await.unwrap();
                     peer.flush().await.unwrap();
-                    match tokio::time::timeout(std::time::Duration::from_millis(500), s.tick()).await {
+                    match tokio::time::timeout(std::time::Duration::from_millis(3000), s.tick()).await {
                         Ok(r) => r.map_err(|_| ()),
                         Err(_) => Err(()),
                     }
@@ -113,7 +113,7 @@ async fn fsm_case(delay_open: bool, hold: u16, ap: &str, steps: &str) -> String 
                     // the peer closes the connection
                     use tokio::io::AsyncWriteExt;
                     let _ = peer.shutdown().await;
-                    match tokio::time::timeout(std::time::Duration::from_millis(500), s.tick()).await {
+                    match tokio::time::timeout(std::time::Duration::from_millis(3000), s.tick()).await {
                         Ok(r) => r.map_err(|_| ()),
                         Err(_) => Err(()),
                     }
